@@ -934,7 +934,7 @@ func ruleRangePositionIndex(c *core.Ctx) {
 					return true
 				}
 				for _, pair := range [][2]ast.Expr{{be.X, be.Y}, {be.Y, be.X}} {
-					if k, ok := core.IntConst(info, pair[1]); ok && k == 0 && core.IsNamed(info.TypeOf(pair[0]), cmapPkg, "CID") {
+					if k, ok := core.IntConst(info, pair[1]); ok && k == 0 && strings.HasSuffix(core.TypeString(info.TypeOf(pair[0])), "CID") {
 						o.FailAt(fn.Site(be, ""), "%s: %s treats CID 0 as 'no entry': a child CMap that maps the code to CID 0 no longer overrides its parent", c.Prog.Pos(be.Pos()), c.Prog.Src(be))
 					}
 				}
